@@ -205,7 +205,7 @@ pub fn run(ctx: &Ctx) -> PropResult {
         }
     }
     let cr = &combos;
-    let per = ctx.n(300, 12_000);
+    let per = ctx.count(300, 12_000);
     let mut wls = vec![];
     wls.push(Workload::cases("single_symbol_x_width", combos.len() as u64 * per, move |rec, idx, rng| {
         let (k, c, w) = cr[(idx / per) as usize];
@@ -213,7 +213,7 @@ pub fn run(ctx: &Ctx) -> PropResult {
         let p: String = std::iter::repeat(c).take(w).collect();
         judge(rec, k, i, off, &p, Some((c, w)));
     }));
-    wls.push(Workload::cases("compositions", ctx.n(300_000, 10_000_000), |rec, idx, rng| {
+    wls.push(Workload::cases("compositions", ctx.count(300_000, 10_000_000), |rec, idx, rng| {
         let k = kinds()[(idx % 3) as usize];
         let (i, off) = gen_fmt_value(rng);
         let p = gen_pattern(rng, k);
